@@ -28,6 +28,7 @@ RULE = ('one run = one seeded history of connect(namespaces, auth, wait) with '
 REAL = REAL_CLIENT
 ASSUMPTIONS = ['E1 (thread world: fifo policy)', 'E2',
                'the scripted server stays protocol-shaped per namespace']
+HASHSEED_DEPENDENT = True   # connect(namespaces=None) iterates over a set
 SHRINK_LISTS = ['ops']
 NSS = ['/', '/a', '/b']
 DELAYS = (0.0, 0.0, 0.01, 0.1, 0.4)
